@@ -9,6 +9,6 @@ trap 'git -C /repo checkout -- . ; git -C /repo clean -fdq crates libs 2>/dev/nu
 cd /verif
 for p in "$@"; do
   echo "##### check $p"
-  timeout 900 ./check "$p" quick --replay-dir /tmp/seeded_replays 2>&1 | grep -v "^replay:\|^\[/repo\|^    \|^\]" | cut -c1-700 | tail -12
+  timeout 900 ./check "$p" quick --replay-dir /tmp/seeded_replays 2>&1 | grep -v "^replay:\|^\[/repo\|^    \|^\]" | cut -c1-700 | tail -16
   echo "##### exit=${PIPESTATUS[0]}"
 done
